@@ -231,7 +231,7 @@ if __name__ == '__main__':
     run_meta(sys.argv[1], json.loads(sys.argv[2]), {}, 'self-test')
 
 
-def run_pointwise(cls, kinds, clause):
+def run_pointwise(cls, kinds, clause, rejected=False):
     """Pointwise dtype table: operands of the given kinds; a rejected combination must raise ValueError/TypeError/AssertionError
     before anything is announced; an accepted one must deliver the announced dtype."""
     args = [arg('a%d' % i, [2], k) for i, k in enumerate(kinds)]
@@ -246,6 +246,9 @@ def run_pointwise(cls, kinds, clause):
         return
     except Exception as e:
         print('REPLAY: VIOLATION-CONFIRMED %s%r: announcing raised %s: %s' % (cls, tuple(DT[k].__name__ for k in kinds), type(e).__name__, e))
+        return
+    if rejected:
+        print('REPLAY: VIOLATION-CONFIRMED %s%r must be rejected but announces dtype %s' % (cls, tuple(DT[k].__name__ for k in kinds), getattr(announced, '__name__', announced)))
         return
     try:
         value = numpy.asarray(ev.compile(node, _simplify=False, _optimize=False)(A))
